@@ -154,8 +154,9 @@ fn cases(seed: u64, doc: &str, vi: u64, len: usize, tier: Tier) -> Vec<(Src, Scr
     let mut out = Vec::new();
     let cap = *r.pick(&BUF_CAPS);
     // every failure position: hard error and premature EOF, plain source and buffered source
+    let ks = positions(len, false, &mut r);
     for src in [Src::Sim, Src::Buf(cap), Src::NoStd] {
-        for k in 0..len {
+        for &k in &ks {
             out.push((src, Script::fail_at(k, Kind::ALL[k % Kind::ALL.len()])));
             out.push((src, Script::zero_at(k)));
         }
@@ -196,7 +197,7 @@ impl DocFn for RunUnit<'_> {
     fn call<D: Doc>(self) {
         let RunUnit { ctx, unit, vi } = self;
         ctx.begin(unit, u64::MAX);
-        let Some(p) = prep_doc::<D>(ctx.seed, ID, vi, ctx.tier) else {
+        let Some(p) = prep_doc_need::<D>(ctx.seed, ID, vi, ctx.tier, Need::Full) else {
             ctx.count("control_failures");
             return;
         };
@@ -260,7 +261,7 @@ struct CaseAt {
 impl DocFn for CaseAt {
     type Out = Option<Case>;
     fn call<D: Doc>(self) -> Option<Case> {
-        let p = prep_doc::<D>(self.seed, ID, self.vi, self.tier)?;
+        let p = prep_doc_need::<D>(self.seed, ID, self.vi, self.tier, Need::Full)?;
         cases(self.seed, D::NAME, self.vi, p.b.len(), self.tier).get(self.sub as usize).map(|(src, script)| Case { doc: D::NAME.into(), vi: self.vi, src: *src, script: script.clone() })
     }
 }
@@ -277,7 +278,7 @@ struct Replay<'a> {
 impl DocFn for Replay<'_> {
     type Out = Result<Option<Violation>, String>;
     fn call<D: Doc>(self) -> Self::Out {
-        let Some(p) = prep_doc::<D>(self.seed, ID, self.case.vi, self.tier) else { return Err("the fault-free control run of this value fails".into()) };
+        let Some(p) = prep_doc_need::<D>(self.seed, ID, self.case.vi, self.tier, Need::Full) else { return Err("the fault-free control run of this value fails".into()) };
         Ok(exec(&p, self.case.src, &self.case.script).err())
     }
 }
